@@ -147,6 +147,39 @@ def run(tier, seed):
                 nid += 1
                 fcases.append({"id": "d%d" % nid, "files": {"top.sv": src[:o] + src[o + len(t):]}, "calls": [{"fn": "parse_sv", "path": "top.sv", "no_tree": True}]})
                 meta["d%d" % nid] = {"kind": "delclose", "deleted": t, "at": o, "base": src}
+    # header-size sweep (round-6 seeded change: an origin entry of the includer coalesced with the last entry of an included
+    # file when the header's length equals the offset at which the includer's text resumes): the sentence stands BEHIND an
+    # `include of a header of every length 0..48 (directly, and one level deeper); the fault is in the file that holds the sentence
+    hb = [s for s in bases if not s.startswith("`")][: (3 if quick else 24)]
+    hp = []
+    for i, s in enumerate(hb):
+        for lay in ("hdr", "hdr2"):
+            inc = "`include \"hdr.svh\"\n" if i % 2 == 0 else "/* p%d */ `include <hdr.svh>\n" % i
+            if lay == "hdr":
+                files = {"top.sv": inc + s, "hdr.svh": "// h\n"}
+            else:
+                files = {"top.sv": "`include \"mid.svh\"\n", "mid.svh": inc + s, "hdr.svh": "// h\n"}
+            hp.append({"id": "%s%d" % (lay, i), "files": files, "calls": [{"fn": "two_step_sv", "path": "top.sv", "origins_of_leaves": True}]})
+    hres = vlib.run_cases(hp, tag="c14h", limit_ms=60000)
+    for pc, res in zip(hp, hres):
+        r0 = res["results"][0]
+        if r0.get("outcome") != "ok":
+            v.violation("base source behind an `include of a header is not accepted: %s %s" % (r0.get("outcome"), str(r0.get("msg", r0.get("err")))[:200]), {"files": pc["files"]})
+            continue
+        holder = "mid.svh" if "mid.svh" in pc["files"] else "top.sv"
+        bs = [b for b in boundaries(r0) if b[0] == holder]
+        for L in range(0, 49):
+            hdr = "" if L == 0 else ("\n" * L if L < 4 else "// " + "h" * (L - 4) + "\n") if L % 3 else ("\n" * L if L < 5 else "/*" + "h" * (L - 5) + "*/\n")
+            assert len(hdr) == L
+            for (path, off) in (rng.sample(bs, min(3, len(bs))) if quick else rng.sample(bs, min(8, len(bs)))):
+                bad = BAD[nid % len(BAD)]
+                files = dict(pc["files"])
+                files["hdr.svh"] = hdr
+                b = files[path].encode()
+                files[path] = {"bytes": list(b[:off] + bad.encode() + b[off:])}
+                nid += 1
+                fcases.append({"id": "h%d" % nid, "files": files, "calls": [{"fn": "parse_sv", "path": "top.sv", "no_tree": True}]})
+                meta["h%d" % nid] = {"kind": "badbyte", "file": path, "off": off, "base": dict(pc["files"], **{"hdr.svh": hdr}), "byte": repr(bad), "header_len": L}
     cf, cm = closed_fault_cases()
     for k, m in cm.items():
         if m["kind"] == "base-not-accepted":
